@@ -26,10 +26,10 @@ import (
 //verif:stub (*os.File).Close stubFileClose
 
 var (
-	termOut   [][]byte // every Write to the terminal
-	rawState  *goxterm.State
-	restored  int
-	ttyClosed int
+	termOut                     [][]byte // every Write to the terminal
+	rawState                    *goxterm.State
+	restored                    int
+	ttyClosed                   int
 	failOpen, failSize, failRaw bool
 )
 
@@ -70,7 +70,7 @@ func stubOsOpen(name string) (*os.File, error) {
 	}
 	return &os.File{}, nil
 }
-func stubFileFd(f *os.File) uintptr { return 3 }
+func stubFileFd(f *os.File) uintptr  { return 3 }
 func stubFileClose(f *os.File) error { ttyClosed++; return nil }
 
 type stubError struct{}
